@@ -39,9 +39,37 @@ type mapRec struct {
 	base  [2]uint64
 }
 
+// chanRec: a buffered channel reachable from a package-level variable (a free list, a queue): its content is state too.
+type chanRec struct {
+	owner string
+	ch    reflect.Value
+	saved []reflect.Value
+}
+
+// ChanContents returns the buffered elements of a channel in order (it takes them out and puts them back; only called
+// while no goroutine of the harness runs).
+func ChanContents(ch reflect.Value) []reflect.Value {
+	var r []reflect.Value
+	if ch.IsNil() || ch.Type().ChanDir() != reflect.BothDir {
+		return nil
+	}
+	for {
+		v, ok := ch.TryRecv()
+		if !ok {
+			break
+		}
+		r = append(r, v)
+	}
+	for _, v := range r {
+		ch.TrySend(v)
+	}
+	return r
+}
+
 type Snapshot struct {
 	regions []*region
 	maps    []*mapRec
+	chans   []*chanRec
 	keep    []reflect.Value
 	seen    map[uintptr]uintptr
 	Bytes   int
@@ -50,6 +78,19 @@ type Snapshot struct {
 var snap *Snapshot
 
 func isShim(t reflect.Type) bool { return strings.Contains(t.PkgPath(), "/verifrt/") }
+
+func (c *chanRec) same() bool {
+	cur := ChanContents(c.ch)
+	if len(cur) != len(c.saved) {
+		return false
+	}
+	for i := range cur {
+		if valSig(cur[i]) != valSig(c.saved[i]) {
+			return false
+		}
+	}
+	return true
+}
 
 func hasPointers(t reflect.Type) bool {
 	switch t.Kind() {
@@ -186,6 +227,12 @@ func (s *Snapshot) walk(owner string, v reflect.Value, depth int, shim bool) {
 		if !v.IsNil() {
 			s.walk(owner, v.Elem(), depth+1, shim)
 		}
+	case reflect.Chan:
+		if v.IsNil() || s.seen[v.Pointer()] > 0 {
+			return
+		}
+		s.seen[v.Pointer()] = 1
+		s.chans = append(s.chans, &chanRec{owner: owner, ch: v, saved: ChanContents(v)})
 	case reflect.Map:
 		if v.IsNil() {
 			return
@@ -358,6 +405,12 @@ func (s *Snapshot) Dirty() []string {
 			out = append(out, m.owner)
 		}
 	}
+	for _, c := range s.chans {
+		if !seen[c.owner] && !c.same() {
+			seen[c.owner] = true
+			out = append(out, c.owner)
+		}
+	}
 	sort.Strings(out)
 	return out
 }
@@ -400,6 +453,18 @@ func (s *Snapshot) Restore() {
 			}
 		}
 		m.base = m.current()
+	}
+	for _, c := range s.chans {
+		if !c.same() {
+			for {
+				if _, ok := c.ch.TryRecv(); !ok {
+					break
+				}
+			}
+			for _, v := range c.saved {
+				c.ch.TrySend(v)
+			}
+		}
 	}
 }
 
